@@ -54,8 +54,11 @@ def ptab_sx(pt):
     return ['ptab'] + [[t, v] for t, v in sorted(pt.items())]
 
 
-NAMES = [b'peak1', b'', b'a b', 'né'.encode(), b'..', b'+', b'-', b'0', b'x' * 40, b' lead', b'trail ', b'a:b-c']
-CHROMS = [b'chr1', b'chr10', b'', b'chrX_random', 'chré'.encode(), b'1', b'scaffold 7']
+NAMES = [b'peak1', b'', b'a b', 'né'.encode(), b'..', b'+', b'-', b'0', b'x' * 40, b' lead', b'trail ', b'a:b-c',
+         b'1,000', b'.5', b'. ', b'a;b', b'"q"', b'\\', b'#x', 'p字'.encode() * 30, b'n' * 300]
+CHROMS = [b'chr1', b'chr10', b'', b'chrX_random', 'chré'.encode(), b'1', b'scaffold 7',
+          b'ctg1,000', b'a,b', b',', b'chr1;2', b'chr_1.2', b'.', b'#chr', b'chr1 ', b'HLA-DRB1*15:01:01:01', b'HLA-DRB1*15:01:01:02',
+          b'NW_017852933.1_unplaced_genomic_scaffold_0001', b'c' * 255 + b'a', 'é'.encode() * 33, b'1,000,000', b'0']
 
 
 def rand_u64(rng):
@@ -159,10 +162,30 @@ def line_in_lexical_class(line):
     return any(in_lexical_class(t) for t in line.split(b'\t'))
 
 
+def long_bad(rng):
+    """a long malformed column: 60..140 (sometimes ~4100) bytes of mixed 1/2/3/4-byte characters, so that any byte offset
+    a parser might cut an error payload at (64, 128, 4096 ...) can fall inside a multi-byte character"""
+    alph = ['a', '9', 'é', '字', '𝒳', ' ', '.']
+    w = rng.choice([[1, 0, 0, 0, 0, 0, 0], [1, 0, 6, 0, 0, 0, 0], [0, 0, 0, 1, 0, 0, 0], [1, 1, 3, 3, 1, 0, 0], [1, 1, 1, 1, 1, 1, 1]])
+    target = rng.choice([rng.randint(60, 70), rng.randint(60, 140), rng.randint(120, 135), rng.randint(250, 262), rng.randint(4090, 4104)])
+    out = b''
+    if rng.random() < 0.5:
+        out = b'a' * rng.randint(0, 3)
+    while len(out) < target:
+        out += rng.choices(alph, weights=w)[0].encode()
+    return out
+
+
 def mutate(rng, line):
     """one malformed / unusual variant of a valid line"""
     cols = line.split(b'\t')
     r = rng.random()
+    if rng.random() < 0.06:
+        j = rng.randrange(len(cols))
+        if rng.random() < 0.6:
+            j = len(cols) - 1 - rng.randrange(min(4, len(cols)))          # the format's own columns are the last ones
+        cols[j] = long_bad(rng)
+        return b'\t'.join(cols)
     if rng.random() < 0.03:
         j = rng.randrange(len(cols))
         cols[j] = rng.choice(LEXICAL_CLASS_U32 if j == 4 else LEXICAL_CLASS)
